@@ -135,6 +135,18 @@ class Analysis:
             a = self.block(st.body, {k: set(v) for k, v in state.items()})
             b = self.block(st.orelse, {k: set(v) for k, v in state.items()})
             return _join(a, b)
+        if isinstance(st, ast.Match):
+            self.visit_calls(st.subject, state)
+            out = None
+            for case in st.cases:
+                s_ = {k: set(v) for k, v in state.items()}
+                for n in ast.walk(case.pattern):        # names captured by the pattern are bound to (parts of) the subject
+                    nm = getattr(n, "name", None)
+                    if isinstance(n, (ast.MatchAs, ast.MatchStar)) and nm:
+                        s_[nm] = alias_of(st.subject, state) if isinstance(st.subject, ast.Name) else set().union(*[alias_of(e, state) for e in getattr(st.subject, "elts", [])] or [set()])
+                r = self.block(case.body, s_)
+                out = r if out is None else _join(out, r)
+            return _join(out or state, state)
         if isinstance(st, (ast.For, ast.While)):
             if isinstance(st, ast.For):
                 self.visit_calls(st.iter, state)
